@@ -33,6 +33,7 @@ import (
 type c11Msg struct {
 	Payload string `json:"payload"` // valid | invalid-fields | wrong-chain | garbage | truncated | empty | decode-panic
 	Verdict string `json:"verdict"` // nil | soft | hard | wrapped-soft | wrapped-hard | plain | panic
+	Via     string `json:"via,omitempty"` // "" = gossiped by the remote attacker | "local" = Subscriber.Broadcast on the node itself (header payloads only)
 }
 
 type c11P struct {
@@ -52,7 +53,10 @@ func TestC11(t *testing.T) {
 	var all []c11Msg
 	for _, pl := range c11Payloads {
 		for _, v := range c11Verdicts {
-			all = append(all, c11Msg{pl, v})
+			all = append(all, c11Msg{Payload: pl, Verdict: v})
+			if pl == "valid" || pl == "invalid-fields" || pl == "wrong-chain" {
+				all = append(all, c11Msg{Payload: pl, Verdict: v, Via: "local"})
+			}
 		}
 	}
 	for rep := 0; rep < r.N(3, 200); rep++ {
@@ -67,8 +71,8 @@ func TestC11(t *testing.T) {
 	}
 	for _, pl := range c11Payloads {
 		for _, v := range []string{"nil", "soft", "hard", "panic"} {
-			mon.Emit(r, "gossip", c11P{Msgs: []c11Msg{{pl, v}, {"valid", "nil"}}, Verifier: "late"}, "gossip")
-			mon.Emit(r, "gossip", c11P{Msgs: []c11Msg{{pl, v}}, Verifier: "never"}, "gossip")
+			mon.Emit(r, "gossip", c11P{Msgs: []c11Msg{{Payload: pl, Verdict: v}, {Payload: "valid", Verdict: "nil"}}, Verifier: "late"}, "gossip")
+			mon.Emit(r, "gossip", c11P{Msgs: []c11Msg{{Payload: pl, Verdict: v}}, Verifier: "never"}, "gossip")
 		}
 	}
 	r.Finish()
@@ -235,9 +239,11 @@ func c11Run(c *mon.Case, p c11P) {
 		}()
 
 		type sent struct {
-			m    c11Msg
-			data []byte
-			hdr  H // nil if the payload is not a header encoding
+			m     c11Msg
+			data  []byte
+			hdr   H     // nil if the payload is not a header encoding
+			local bool  // went through Subscriber.Broadcast
+			berr  error // what Broadcast returned
 		}
 		var sents []sent
 		for i, m := range p.Msgs {
@@ -267,9 +273,16 @@ func c11Run(c *mon.Case, p c11P) {
 			vmu.Lock()
 			outcomes[nonce] = m.Verdict
 			vmu.Unlock()
-			sents = append(sents, sent{m, data, hdr})
-			if err := topicA.Publish(context.Background(), data); err != nil {
-				c.T.Fatalf("publish: %v", err)
+			if m.Via == "local" && hdr != nil && p.Verifier == "set" {
+				bctx, bcancel := context.WithTimeout(context.Background(), 5*time.Second)
+				berr := sub.Broadcast(bctx, hdr)
+				bcancel()
+				sents = append(sents, sent{m: m, data: data, hdr: hdr, local: true, berr: berr})
+			} else {
+				sents = append(sents, sent{m: m, data: data, hdr: hdr})
+				if err := topicA.Publish(context.Background(), data); err != nil {
+					c.T.Fatalf("publish: %v", err)
+				}
 			}
 			time.Sleep(200 * time.Millisecond)
 			synctest.Wait()
@@ -334,7 +347,24 @@ func c11Run(c *mon.Case, p c11P) {
 			}
 			c.Count("messages", 1)
 			shape := fmt.Sprintf("payload=%s/verifier=%s/%s", s.m.Payload, s.m.Verdict, p.Verifier)
-			classes = append(classes, fmt.Sprintf("%s:%s=>%s", s.m.Payload, s.m.Verdict, got))
+			if s.local {
+				// pubsub does not show locally published messages to raw tracers: the verdict is what Publish returned
+				shape += "/local-broadcast"
+				c.Count("local broadcasts", 1)
+				var ve pubsub.ValidationError
+				switch {
+				case s.berr == nil:
+					got, terminal = "accept", 1
+				case errors.As(s.berr, &ve) && ve.Reason == pubsub.RejectValidationIgnored:
+					got, terminal = "ignore", 1
+				case errors.As(s.berr, &ve):
+					got, terminal = "reject", 1
+				default:
+					c.Violation("broadcast-unexpected-error/"+shape, fmt.Sprintf("Broadcast returned %v (%T)", s.berr, s.berr), nil)
+					continue
+				}
+			}
+			classes = append(classes, fmt.Sprintf("%s%s:%s=>%s", s.m.Via, s.m.Payload, s.m.Verdict, got))
 			if terminal != 1 {
 				c.Violation("not-exactly-one-verdict/"+shape, fmt.Sprintf("%d terminal validation events for one message: %v", terminal, evs), nil)
 				continue
